@@ -74,6 +74,10 @@ pub fn kverif_replay_run(name: &str, values: &[u64]) {
         _ => panic!("KV_REPLAY: unknown harness"),
     }
 }
+#[cfg(kverif_replay)]
+pub fn kverif_replay_failed() -> bool {
+    kv::replay_failed()
+}
 """ % "\n".join(arms))
     os.makedirs(os.path.join(crate, "src", "bin"), exist_ok=True)
     with open(os.path.join(crate, "src", "bin", "kvreplay.rs"), "w") as f:
@@ -82,6 +86,10 @@ pub fn kverif_replay_run(name: &str, values: &[u64]) {
     let name = args.next().expect("harness name");
     let values: Vec<u64> = args.map(|a| a.parse().expect("u64")).collect();
     avt::kverif_replay_run(&name, &values);
+    if avt::kverif_replay_failed() {
+        eprintln!("KV_REPLAY: at least one harness assertion failed");
+        std::process::exit(101);
+    }
     println!("KV_REPLAY: harness body completed without a failed assertion");
 }
 """)
@@ -116,8 +124,13 @@ def judge(p, desc, strict=False):
         return False, "native run completed without failing"
     # a panic: either our tagged assertion or a panic inside avt (index, overflow, unwrap...)
     key = desc.split("]")[-1].strip()[:40]
+    if key and any(("KV_ASSERT_FAILED" in l or "panicked" in l or key in l) and key in l for l in out.splitlines()):
+        return True, "same assertion failed natively"
     if key and key in out:
         return True, "same assertion failed natively"
+    failed = [l for l in out.splitlines() if "KV_ASSERT_FAILED" in l]
+    if failed and "panicked at" not in out:
+        return False, "only other harness assertions failed natively: " + failed[0][:160]
     if "panicked at" in out:
         line = [l for l in out.splitlines() if "panicked at" in l][0]
         if strict and "kverif" in line:
